@@ -10,7 +10,7 @@
    of what was recorded -- the variant of updateScripts that keeps verTable = "ver" when the engines are the
    Replicated ones is outside the model, and the harness observes the difference. *)
 From Coq Require Import List Arith Lia Bool.
-From Qryn Require Import model.Migrate.
+From Qryn Require Import model.Migrate proofs.MigrateProofs gen.GenScripts.
 Import ListNotations.
 
 Definition vstore := list (stream -> nat).
@@ -72,4 +72,58 @@ Qed.
 Example two_shards :
   let st := writes [(0, SLog, 27); (0, SLog, 28); (0, STraces, 8)] [fun _ => 0; fun _ => 0] in
   read_dist st SLog = 28 /\ read_local 0 st SLog = 28 /\ read_local 1 st SLog = 0 /\ read_dist st STraces = 8.
+Proof. vm_compute. repeat split. Qed.
+
+(* ---- a start through another host of the cluster (Migrate.start_at: hosts 0 and j exchanged) ---- *)
+Lemma nth_split_at : forall (A : Type) (l : list A) j x, nth_error l j = Some x ->
+  l = firstn j l ++ x :: skipn (S j) l /\ List.length (firstn j l) = j.
+Proof.
+  induction l as [|a l IH]; intros j x E; [destruct j; discriminate|].
+  destruct j as [|j]; [injection E as ->; split; reflexivity|].
+  destruct (IH j x E) as [P Q]. split; [change (a :: l = a :: (firstn j l ++ x :: skipn (S j) l)); f_equal; exact P|].
+  change (S (List.length (firstn j l)) = S j). f_equal. exact Q.
+Qed.
+Lemma nth_mid : forall (A : Type) (pre post : list A) x, nth_error (pre ++ x :: post) (List.length pre) = Some x.
+Proof. induction pre; intros; [reflexivity|apply IHpre]. Qed.
+Lemma firstn_mid : forall (A : Type) (pre r : list A), firstn (List.length pre) (pre ++ r) = pre.
+Proof. induction pre as [|a pre IH]; intros r; [destruct r; reflexivity|]. change (a :: firstn (List.length pre) (pre ++ r) = a :: pre). f_equal. apply IH. Qed.
+Lemma skipn_mid : forall (A : Type) (pre post : list A) x, skipn (S (List.length pre)) (pre ++ x :: post) = post.
+Proof. induction pre as [|a pre IH]; intros post x; [reflexivity|]. apply IH. Qed.
+
+Lemma swap_hosts_involutive : forall (A : Type) (j : nat) (hs : list A), swap_hosts j (swap_hosts j hs) = hs.
+Proof.
+  intros A j hs. destruct hs as [|h0 tl]; [destruct j; reflexivity|]. destruct j as [|j]; [reflexivity|].
+  unfold swap_hosts at 2. destruct (nth_error tl j) as [hj|] eqn:E.
+  2:{ unfold swap_hosts. rewrite E. reflexivity. }
+  destruct (nth_split_at A tl j hj E) as [P Q].
+  set (pre := firstn j tl) in *. set (post := skipn (S j) tl) in *. clearbody pre post. subst j.
+  unfold swap_hosts. rewrite nth_mid, firstn_mid, skipn_mid, <- P. reflexivity.
+Qed.
+
+(* a start through ANY host of the cluster on an up-to-date database: no script statement, no version write,
+   every host's catalogue and the versions unchanged *)
+Theorem noop_through_any_host :
+  forall (scripts : stream -> list stmt) (oncl : stream -> list bool) (c : cfg) (j : nat) (os : list outcome) (d : db (ccat cat)),
+  (forall k, In k (streams_of c) -> List.length (cl_scripts scripts oncl c k) <= d_vers d k) ->
+  let m := fst (start_at scripts oncl c j os d) in
+  let d1 := snd (start_at scripts oncl c j os d) in
+  d_cat d1 = d_cat d /\ d_vers d1 = d_vers d /\ filter is_script_event (r_log m) = [].
+Proof.
+  intros scripts oncl c j os d H. unfold start_at. cbn [fst snd].
+  set (d' := set_cat (ccat cat) d (swap_hosts j (d_cat d))).
+  destruct (run_streams_noop (ccat cat) (cstmt stmt) (cl_exec cat stmt (exec_ch (cloud c))) (cl_pexec cat stmt (exec_ch (cloud c)))
+              (cl_scripts scripts oncl c) c (streams_of c) os d' H) as (Hc & Hv & Hn & _).
+  unfold ch_update, update. cbn [set_cat d_cat d_vers].
+  rewrite Hc, Hv. subst d'. cbn [set_cat d_cat d_vers]. rewrite swap_hosts_involutive.
+  split; [reflexivity|]. split; [reflexivity|]. exact Hn.
+Qed.
+
+(* hypotheses met by a non-trivial value: the repository's scripts, replicated + clustered, 2 hosts, the finished
+   database, a start through host 1: 18 calls (6 streams x create ver, create ver_dist, read), no script *)
+Example noop_any_host_hypotheses_met :
+  let c := {| cloud := true; dist := true; clustered := true |} in
+  let d := expected_final gen_scripts gen_oncluster c 2 in
+  forallb (fun k => List.length (cl_scripts gen_scripts gen_oncluster c k) <=? d_vers d k) (streams_of c) = true /\
+  filter is_script_event (r_log (fst (start_at gen_scripts gen_oncluster c 1 [] d))) = [] /\
+  List.length (r_log (fst (start_at gen_scripts gen_oncluster c 1 [] d))) = 18.
 Proof. vm_compute. repeat split. Qed.
